@@ -1458,6 +1458,16 @@ def round_clip_in_work_dtype(repo, col):
                 n_ = cfg.node_of(d.stmt)
                 if n_ is not None:
                     casts.append(n_)
+        # a test that the array already has the work dtype is as good as the
+        # cast on the arm where it holds
+        from .rules_more3 import _tests_enclosing
+        from .dataflow import holds
+        for t_, tr_ in (_tests_enclosing(f.node, stmt) or []):
+            for a_ in holds(t_, tr_):
+                if a_.op == "==" and {norm(a_.left), norm(a_.right)} & \
+                        {"%s.dtype" % name} and not any(
+                            "input" in norm(x_) for x_ in (a_.left, a_.right)):
+                    return "ok", None
         if casts and cfg.every_path_passes(cfg.entry, sn, casts):
             return "ok", None
         is_param = any(d.kind == "param" for d in defs.get(name, []))
@@ -1574,3 +1584,110 @@ def readable_count_format_types(repo, col):
     if n == 0:
         col.add(rule, fn, "format specs", True, "no literal format spec "
                 "recognised", undecided=True)
+
+
+# ---------------------------------------------------------------------
+def delete_guard_excludes_open(repo, col, short="file_accessor"):
+    """A guard that removes the target when the guarded block raises must not
+    enclose the open() itself: with exclusive creation ('xb') the failure is
+    the refusal to overwrite, and the guard would then delete the file that
+    was to be protected."""
+    rule = "E-EXC.B.no-delete-on-error.guard"
+    m = repo.module(short)
+    deleting = {}
+    for f in m.functions.values():
+        decos = [(call_name(d) if isinstance(d, ast.Call) else
+                  ".".join(filter(None, [getattr(getattr(d, "value", None),
+                                                 "id", None),
+                                         getattr(d, "attr", None) or
+                                         getattr(d, "id", None)])))
+                 for d in f.node.decorator_list]
+        if not any((x or "").endswith("contextmanager") for x in decos):
+            continue
+        for h in ast.walk(f.node):
+            if isinstance(h, ast.ExceptHandler) and any(
+                    isinstance(c, ast.Call) and (
+                        (isinstance(c.func, ast.Attribute) and
+                         c.func.attr in ("unlink", "remove")) or
+                        (call_name(c) or "") in ("os.remove", "os.unlink"))
+                    for s_ in h.body for c in ast.walk(s_)):
+                deleting[f.qualname] = f
+    n = 0
+
+    def is_open(c):
+        nm = call_name(c) or ""
+        return nm in ("open", "gzip.open", "io.open", "os.open") or (
+            isinstance(c.func, ast.Attribute) and c.func.attr == "open")
+    for f in m.functions.values():
+        for w in ast.walk(f.node):
+            if not isinstance(w, ast.With):
+                continue
+            for k, it in enumerate(w.items):
+                c = it.context_expr
+                if isinstance(c, ast.Call) and \
+                        (call_name(c) or "").split(".")[-1] in deleting:
+                    n += 1
+                    inside = [x for later in w.items[k + 1:]
+                              for x in ast.walk(later.context_expr)
+                              if isinstance(x, ast.Call) and is_open(x)]
+                    inside += [x for st in w.body for x in ast.walk(st)
+                               if isinstance(x, ast.Call) and is_open(x)]
+                    col.add(rule, f, norm(c)[:60], not inside,
+                            "the file is opened before the guard is entered"
+                            if not inside else
+                            "`%s` is evaluated inside the guard `%s`, whose "
+                            "handler deletes the target: when the open itself "
+                            "fails because the file exists (mode 'xb', "
+                            "overwrite not permitted) the existing file is "
+                            "removed" % (norm(inside[0])[:40], norm(c)[:40]),
+                            node=inside[0] if inside else c)
+    if n == 0:
+        col.add(rule, m.short + ":module", "deleting guards", True,
+                "%d context managers that delete on error, none used"
+                % len(deleting), nontrivial=False)
+
+
+# ---------------------------------------------------------------------
+def sibling_accessors_same_location(repo, col):
+    """get_accessor_for_url: the plain accessor that probes the info file and
+    the sharded accessor that replaces it are opened on the same location
+    (the URL with the `precomputed://` prefix already removed)."""
+    rule = "E-SIB.dispatch.location"
+    fn = repo.func("accessor", "get_accessor_for_url")
+    nodes = [fn.node]
+    from .dataflow import single_defs, expand
+    table = single_defs(fn.node)
+    params = [p for p in fn.params]
+    found = {}
+    for c in ast.walk(fn.node):
+        if isinstance(c, ast.Call):
+            nm = (call_name(c) or "").split(".")[-1]
+            if nm in ("HttpAccessor", "ShardedHttpAccessor",
+                      "FileAccessor", "ShardedFileAccessor") and c.args:
+                found.setdefault(nm, []).append(c)
+    n = 0
+    for plain, sharded in (("HttpAccessor", "ShardedHttpAccessor"),
+                           ("FileAccessor", "ShardedFileAccessor")):
+        for a in found.get(plain, []):
+            for b in found.get(sharded, []):
+                n += 1
+                ta = norm(expand(a.args[0], table, depth=4))
+                tb = norm(expand(b.args[0], table, depth=4))
+                raw_a = isinstance(a.args[0], ast.Name) and \
+                    a.args[0].id in params
+                raw_b = isinstance(b.args[0], ast.Name) and \
+                    b.args[0].id in params
+                bad = ta != tb and (raw_a != raw_b)
+                col.add(rule, fn, "%s(%s) / %s(%s)" % (
+                    plain, norm(a.args[0])[:20], sharded,
+                    norm(b.args[0])[:20]), not bad,
+                    "" if not bad else
+                    "%s is opened on `%s` but %s on `%s`: one of them gets "
+                    "the URL as the caller wrote it (with its precomputed:// "
+                    "prefix), the other the normalised location"
+                    % (plain, norm(a.args[0]), sharded, norm(b.args[0])),
+                    node=b, undecided=ta != tb and not bad)
+    if n == 0:
+        col.add(rule, fn, "plain / sharded accessor pairs", True,
+                "constructors not found in get_accessor_for_url",
+                undecided=True)
